@@ -1,35 +1,34 @@
 import HdVerif.Model.Basic
 /-!
-# Copy-or-alias data flow (C20)
+# Copy-or-alias data flow (C20): the language and the analysis
 
-A store of *regions* (one region = one allocation together with everything reachable from it: a dataset with its
-nested sequences and items, an array buffer with all its views).  `deepcopy`, `astype`, arithmetic, constructors
-allocate a **fresh** region; attribute / item access, `x[...]`, `reshape`, `np.newaxis` yield a **view**: the same region, or
-(for attributes and items) an object that was stored there earlier — stores of references are recorded as labelled **links**; `x.__class__ = …`, attribute / item assignment, `x *= …`, `append` **write** the region; a nested converter called
-with `copy=False` writes it and everything reachable from it (**deep** write; assignments of references are recorded as links).  Conditions other than the `copy` flag are opaque: a valuation (bit mask)
-decides every branch, and the theorems quantify over all valuations.
+`translate/targets_C20.py` extracts from the current source of every converter / constructor a program of the small language
+below (`Generated/T20alias_*.lean`, `Generated/T20ctor_*.lean`).  This file holds
 
-The programs are not written by hand: `translate/targets_C20.py` extracts them from the current source of every
-`from_dataset` / `from_sequence` converter and of `Segmentation._get_segment_pixel_array` (`Generated/T20alias_*.lean`).
+* the language (`Expr`, `Stmt`, `Entry`);
+* the **analysis**: an abstract interpreter over *regions*.  Parameter `i` of the function is region `i`; every allocation
+  (`deepcopy`, `astype`, arithmetic, a constructor call, an unknown call's result) is a new region.  A reference is a **set** of
+  regions it may point into (a bit set: bit `k` = region `k`), stores of references are recorded as labelled **links**
+  (holders, label, targets), and for a holder that is known exactly (a one-element set) the link is recorded as certain
+  (`must`).  The analysis logs every region a write may hit; conditions other than the `copy` flag are opaque: a valuation
+  (bit mask) decides every branch, and the checks run the analysis under all `2^nCond` valuations.
+
+What the analysis means is fixed by the store semantics in `Model/AliasConcrete.lean`; `Proofs/AliasSound.lean` proves, for **all**
+programs of the language, that whatever a concrete run writes or returns is covered by what the analysis logs.
+
+All set operations are bit operations on `Nat` and all branches are `bif` on `Nat.beq`: the kernel evaluates them with its
+built-in big-number arithmetic, which keeps `decide +kernel` over the regenerated programs cheap.
 -/
 namespace HdVerif.Aliasing
-
-/-- a reference: the regions the object it denotes may live in (a may-point-to set: an attribute `x.f` is either a part
-of `x`'s own allocation or an object that was stored under `f` earlier), and whether it is an allocation's root object itself -/
-structure Ref where
-  regions : List Nat
-  root : Bool
-  deriving DecidableEq, Repr
 
 inductive Expr
   /-- local variable or parameter (numbered by the extractor) -/
   | var (x : Nat)
   /-- `view f e`: what is reached from `e` through field `f` — label 0: the same object seen differently (`reshape`,
-  `np.asarray`, `cast`); label 1: an item (`x[...]`, iteration); label 3: a shared `DataElement`; label 4: an item of an item (of a dict of lists, a list of lists); labels ≥ 5: attribute names
-  (numbered per program).  For each region `e` may live in: the objects stored under `f` from that region if there are any
-  (explicitly assigned / appended), otherwise the region itself (a part of the same allocation).  [Dropping the region when it
-  has such links can only lose writes to a region that already was the holder of a recorded store — an input region becomes
-  a holder only through a write that is itself reported.] -/
+  `np.asarray`, `cast`); label 1: an item (`x[...]`, iteration); label 3: a shared `DataElement`; label 4: an item of an item (of a
+  dict of lists, a list of lists); labels ≥ 5: attribute names (numbered per program).  The object(s) stored under `f` in the
+  object `e` denotes if there are any (explicitly assigned / appended), otherwise the object itself (a part of the same
+  allocation). -/
   | view (f : Nat) (e : Expr)
   /-- a newly allocated object (deepcopy, astype, arithmetic, constructor, unknown call result) -/
   | fresh
@@ -40,12 +39,12 @@ inductive Expr
 inductive Stmt
   | assign (x : Nat) (e : Expr)
   /-- in-place modification of the object `e` refers to itself (attribute / item assignment, `__class__ = …`, `*=`,
-  `append`): every region it may live in -/
+  `append`) -/
   | write (e : Expr)
-  /-- recursive in-place conversion (a converter called with `copy=False`): the regions of `e` and every region reachable
-  from them through links -/
+  /-- recursive in-place conversion (a converter called with `copy=False`): the object and every object reachable from it
+  through stored references -/
   | writeDeep (e : Expr)
-  /-- from now on the object `a` refers to holds, under field `f`, a reference to what `b` refers to (attribute / item
+  /-- the object `a` refers to is modified to hold, under field `f`, a reference to what `b` refers to (attribute / item
   assignment, `append`, a list literal or constructor call keeping its arguments) -/
   | link (a : Expr) (f : Nat) (b : Expr)
   /-- branch on opaque condition `c` (condition 0 is the `copy` flag where a converter has one) -/
@@ -56,102 +55,14 @@ inductive Stmt
 
 abbrev Prog := List Stmt
 
-/-- contents are abstract: one natural number per region (any injective encoding of the real content);
-a link is (holder region, field label, target region) -/
-structure State where
-  env : List (Nat × Ref)
-  next : Nat
-  store : Nat → Nat
-  links : List (Nat × Nat × Nat)
-  writes : List Nat
-  result : Option Ref
-  halted : Bool
-
-def lookup (env : List (Nat × Ref)) (x : Nat) : Option Ref := (env.find? (·.1 == x)).map (·.2)
-
-/-- regions stored under field `f` of an object living in one of `rs` -/
-def targets (links : List (Nat × Nat × Nat)) (rs : List Nat) (f : Nat) : List Nat :=
-  (links.filter fun l => rs.contains l.1 && l.2.1 == f).map (·.2.2)
-
-/-- evaluate an expression: the reference it yields and the next free region id (a variable that was never bound
-refers to something unrelated to the inputs: a fresh region) -/
-def eval (env : List (Nat × Ref)) (links : List (Nat × Nat × Nat)) (next : Nat) : Expr → Ref × Nat
-  | .var x => match lookup env x with
-    | some r => (r, next)
-    | none => (⟨[next], true⟩, next + 1)
-  | .view f e =>
-    let r := eval env links next e
-    (⟨(if f = 0 then r.1.regions else r.1.regions.flatMap fun k =>
-          -- label 4 = an item of an item: stored as such, or an item of an explicitly stored item
-          let t := if f = 4 then targets links [k] 4 ++ targets links (targets links [k] 1) 1 else targets links [k] f
-          if t.isEmpty then [k] else t).eraseDups, false⟩, r.2)
-  | .fresh => (⟨[next], true⟩, next + 1)
-  | .join a b =>
-    let ra := eval env links next a
-    let rb := eval env links ra.2 b
-    (⟨(ra.1.regions ++ rb.1.regions).eraseDups, false⟩, rb.2)
-
-/-- one round of following links (whatever their label) from the regions seen so far -/
-def step (links : List (Nat × Nat × Nat)) (seen : List Nat) : List Nat :=
-  links.foldl (fun acc p => if acc.contains p.1 && !acc.contains p.2.2 then p.2.2 :: acc else acc) seen
-
-/-- regions reachable from `seen` through at most `fuel` rounds of links -/
-def closure (links : List (Nat × Nat × Nat)) : Nat → List Nat → List Nat
-  | 0, seen => seen
-  | fuel + 1, seen => closure links fuel (step links seen)
-
-mutual
-/-- one statement; `v` is the valuation of the opaque conditions (bit `c` = condition `c`), `w` the (arbitrary) effect a
-write has on the content of a region -/
-def exec (v : Nat) (w : Nat → Nat → Nat) : Stmt → State → State
-  | .assign x e, s =>
-    if s.halted then s else
-    let rn := eval s.env s.links s.next e
-    { s with env := (x, rn.1) :: s.env, next := rn.2 }
-  | .write e, s =>
-    if s.halted then s else
-    let rn := eval s.env s.links s.next e
-    let hit := rn.1.regions
-    { s with next := rn.2, writes := hit ++ s.writes,
-             store := fun k => if hit.contains k then w k (s.store k) else s.store k }
-  | .writeDeep e, s =>
-    if s.halted then s else
-    let rn := eval s.env s.links s.next e
-    let hit := closure s.links (s.links.length + 1) rn.1.regions
-    { s with next := rn.2, writes := hit ++ s.writes,
-             store := fun k => if hit.contains k then w k (s.store k) else s.store k }
-  | .link a f b, s =>
-    if s.halted then s else
-    let ra := eval s.env s.links s.next a
-    let rb := eval s.env s.links ra.2 b
-    { s with next := rb.2,
-             links := (ra.1.regions.flatMap fun x => rb.1.regions.map fun y => (x, f, y)) ++ s.links }
-  | .ite c t e, s =>
-    if s.halted then s else
-    if v.testBit c then execList v w t s else execList v w e s
-  | .ret e, s =>
-    if s.halted then s else
-    let rn := eval s.env s.links s.next e
-    { s with next := rn.2, result := some rn.1, halted := true }
-  | .raise, s => if s.halted then s else { s with halted := true }
-
-def execList (v : Nat) (w : Nat → Nat → Nat) : List Stmt → State → State
-  | [], s => s
-  | st :: rest, s => execList v w rest (exec v w st s)
-end
-
-/-- initial state: parameter `i` (variables `0 … nIn-1`) is the root of region `i`; everything else is unallocated -/
-def init (nIn : Nat) (store : Nat → Nat) : State :=
-  { env := (List.range nIn).map (fun i => (i, ⟨[i], true⟩)), next := nIn, store := store, links := [], writes := [], result := none,
-    halted := false }
-
-def run (p : Prog) (nIn : Nat) (v : Nat) (w : Nat → Nat → Nat) (store : Nat → Nat) : State :=
-  execList v w p (init nIn store)
-
-/-- the store plays no role for control and data flow: the write log, the result and the allocation counter of a run -/
-def summary (p : Prog) (nIn : Nat) (v : Nat) : List Nat × Option Ref × Bool :=
-  let s := run p nIn v (fun _ x => x) (fun _ => 0)
-  (s.writes, s.result, s.halted)
+/-- one extracted function: its name, the number of input parameters (regions `0 … nIn-1`), the number of opaque
+conditions, whether condition 0 is a `copy` flag, and the program -/
+structure Entry where
+  name : String
+  nIn : Nat
+  nCond : Nat
+  hasCopy : Bool
+  prog : Prog
 
 /- conditions mentioned by a program are all below `k` -/
 mutual
@@ -163,35 +74,178 @@ def condsBelowList (k : Nat) : List Stmt → Bool
   | st :: rest => condsBelow k st && condsBelowList k rest
 end
 
-/-- one extracted function: its name, the number of input parameters (regions `0 … nIn-1`), the number of opaque
-conditions, whether condition 0 is a `copy` flag, and the program -/
-structure Entry where
-  name : String
-  nIn : Nat
-  nCond : Nat
-  hasCopy : Bool
-  prog : Prog
+/-! ## the analysis -/
+
+/-- an abstract reference: the set of regions the object it denotes may live in (bit `k` = region `k`), and whether it is
+known to be the root object of exactly that one region (a parameter as passed, a newly allocated object) -/
+structure Ref where
+  mask : Nat
+  root : Bool
+  deriving DecidableEq, Repr
+
+/-- state of the analysis.  `links`: (label, holders, targets) — some region of `holders` may hold under `label` references into
+`targets`; `must`: (label, holder) — the single region of `holder` certainly holds something under `label`; `writes`: every region
+a write may have hit; `overflow`: the transitive closure for a deep write did not close (never happens with the fuel used; it
+makes every check fail) -/
+structure AState where
+  env : List (Nat × Ref)
+  next : Nat
+  links : List (Nat × Nat × Nat)
+  must : List (Nat × Nat)
+  writes : Nat
+  overflow : Bool
+  result : Option Ref
+  halted : Bool
+
+def lookup : List (Nat × Ref) → Nat → Option Ref
+  | [], _ => none
+  | (y, r) :: rest, x => bif Nat.beq y x then some r else lookup rest x
+
+/-- regions stored under label `f` in an object living in one of the regions `rs` -/
+def targets : List (Nat × Nat × Nat) → Nat → Nat → Nat
+  | [], _, _ => 0
+  | (g, h, t) :: rest, f, rs =>
+    bif Nat.beq g f && !(Nat.beq (h &&& rs) 0) then t ||| targets rest f rs else targets rest f rs
+
+/-- regions that certainly hold something under label `f` -/
+def mustOf : List (Nat × Nat) → Nat → Nat
+  | [], _ => 0
+  | (g, m) :: rest, f => bif Nat.beq g f then m ||| mustOf rest f else mustOf rest f
+
+/-- one level of `x.f` on a set of regions: what is stored under `f`, and the regions themselves unless they certainly hold
+something under `f` -/
+def viewSet (links : List (Nat × Nat × Nat)) (must : List (Nat × Nat)) (f : Nat) (rs : Nat) : Nat :=
+  targets links f rs ||| (rs ^^^ (rs &&& mustOf must f))
+
+/-- evaluate an expression: the reference it yields and the next free region id (a variable that was never bound
+refers to something unrelated to the inputs: a new region) -/
+def eval (env : List (Nat × Ref)) (links : List (Nat × Nat × Nat)) (must : List (Nat × Nat)) (next : Nat) :
+    Expr → Ref × Nat
+  | .var x => match lookup env x with
+    | some r => (r, next)
+    | none => (⟨2 ^ next, true⟩, next + 1)
+  | .view f e =>
+    match eval env links must next e with
+    | (r, n) =>
+      bif Nat.beq f 0 then (⟨r.mask, false⟩, n) else
+      bif Nat.beq f 4 then
+        -- an item of an item: stored as such, or an item of an explicitly stored item
+        (⟨viewSet links must 4 r.mask ||| viewSet links must 1 (targets links 1 r.mask), false⟩, n)
+      else (⟨viewSet links must f r.mask, false⟩, n)
+  | .fresh => (⟨2 ^ next, true⟩, next + 1)
+  | .join a b =>
+    match eval env links must next a with
+    | (ra, n1) => match eval env links must n1 b with
+      | (rb, n2) => (⟨ra.mask ||| rb.mask, false⟩, n2)
+
+/-- one round of following links (whatever their label) from the regions seen so far -/
+def step : List (Nat × Nat × Nat) → Nat → Nat
+  | [], seen => seen
+  | (_, h, t) :: rest, seen => step rest (bif Nat.beq (h &&& seen) 0 then seen else seen ||| t)
+
+def closure (links : List (Nat × Nat × Nat)) : Nat → Nat → Nat
+  | 0, seen => seen
+  | fuel + 1, seen => closure links fuel (step links seen)
+
+/-- is the set closed under every link? -/
+def closedUnder : List (Nat × Nat × Nat) → Nat → Bool
+  | [], _ => true
+  | (_, h, t) :: rest, c => (Nat.beq (h &&& c) 0 || Nat.beq (t ||| c) c) && closedUnder rest c
+
+mutual
+/-- one statement under the valuation `v` of the opaque conditions (bit `c` = condition `c`) -/
+def exec (v : Nat) : Stmt → AState → AState
+  | .assign x e, s =>
+    bif s.halted then s else
+    match eval s.env s.links s.must s.next e with
+    | (r, n) => { s with env := (x, r) :: s.env, next := n }
+  | .write e, s =>
+    bif s.halted then s else
+    match eval s.env s.links s.must s.next e with
+    | (r, n) => { s with next := n, writes := r.mask ||| s.writes }
+  | .writeDeep e, s =>
+    bif s.halted then s else
+    match eval s.env s.links s.must s.next e with
+    | (r, n) =>
+      let hit := closure s.links (s.links.length + 1) r.mask
+      { s with next := n, writes := hit ||| s.writes, overflow := s.overflow || !closedUnder s.links hit }
+  | .link a f b, s =>
+    bif s.halted then s else
+    match eval s.env s.links s.must s.next a with
+    | (ra, n1) => match eval s.env s.links s.must n1 b with
+      | (rb, n2) =>
+        { s with next := n2, writes := ra.mask ||| s.writes, links := (f, ra.mask, rb.mask) :: s.links,
+                 must := bif Nat.beq ra.mask (2 ^ Nat.log2 ra.mask) then (f, ra.mask) :: s.must else s.must }
+  | .ite c t e, s =>
+    bif s.halted then s else
+    bif v.testBit c then execList v t s else execList v e s
+  | .ret e, s =>
+    bif s.halted then s else
+    match eval s.env s.links s.must s.next e with
+    | (r, n) => { s with next := n, result := some r, halted := true }
+  | .raise, s => bif s.halted then s else { s with halted := true }
+
+def execList (v : Nat) : List Stmt → AState → AState
+  | [], s => s
+  | st :: rest, s => execList v rest (exec v st s)
+end
+
+/-- initial state: parameter `i` (variables `0 … nIn-1`) is the root of region `i` -/
+def init (nIn : Nat) : AState :=
+  { env := (List.range nIn).map (fun i => (i, ⟨2 ^ i, true⟩)), next := nIn, links := [], must := [], writes := 0,
+    overflow := false, result := none, halted := false }
+
+/-- the analysis of a whole program under one valuation -/
+def analyse (p : Prog) (nIn : Nat) (v : Nat) : AState := execList v p (init nIn)
+
+/-- no region of a parameter is in the write log, and the closure never overflowed -/
+def cleanInputs (nIn : Nat) (s : AState) : Bool :=
+  !s.overflow && Nat.beq (s.writes &&& (2 ^ nIn - 1)) 0
 
 /-- no input region is ever written, whatever the opaque conditions (checked over all `2^nCond` valuations) -/
 def neverWritesInputs (e : Entry) : Bool :=
-  (List.range (2 ^ e.nCond)).all fun v => (summary e.prog e.nIn v).1.all fun r => decide (e.nIn ≤ r)
+  (List.range (2 ^ e.nCond)).all fun v => cleanInputs e.nIn (analyse e.prog e.nIn v)
 
-/-- with `copy = True` (bit 0 set) the converted input (region 0) is never written and what is returned is a
-different region -/
+/-- no input is written and what is returned lives in newly allocated regions only -/
+def freshResult (nIn : Nat) (s : AState) : Bool :=
+  cleanInputs nIn s &&
+    match s.result with
+    | some r => Nat.beq (r.mask &&& (2 ^ nIn - 1)) 0
+    | none => true
+
+/-- whatever is returned is the very object that was passed in (region 0, root) -/
+def sameResult (s : AState) : Bool :=
+  match s.result with
+  | some r => r == ⟨1, true⟩
+  | none => true
+
+/-- with `copy = True` (bit 0 set) no input is written and what is returned lives in newly allocated regions only -/
 def copyLeavesOriginal (e : Entry) : Bool :=
-  (List.range (2 ^ e.nCond)).all fun v =>
-    !v.testBit 0 ||
-      ((summary e.prog e.nIn v).1.all (fun r => decide (e.nIn ≤ r)) &&
-       match (summary e.prog e.nIn v).2.1 with
-       | some r => r.regions.all fun k => decide (e.nIn ≤ k)
-       | none => true)
+  (List.range (2 ^ e.nCond)).all fun v => !v.testBit 0 || freshResult e.nIn (analyse e.prog e.nIn v)
 
 /-- with `copy = False` (bit 0 clear) whatever is returned is the very object that was passed in (region 0, root) -/
 def nocopyReturnsSame (e : Entry) : Bool :=
-  (List.range (2 ^ e.nCond)).all fun v =>
-    v.testBit 0 ||
-      match (summary e.prog e.nIn v).2.1 with
-      | some r => r == ⟨[0], true⟩
-      | none => true
+  (List.range (2 ^ e.nCond)).all fun v => v.testBit 0 || sameResult (analyse e.prog e.nIn v)
+
+/-- the converters that have to build a new container around the caller's items (a `ContentSequence` keeps a name
+index and cannot be obtained by re-classing a list; `MeasurementReport.from_sequence` is a re-classed
+`ContentSequence.from_sequence`); see `nocopy_returns_same`.  Hand-written; tied to the programs by `converterOk`: exactly these
+fail `nocopyReturnsSame`. -/
+def rebuildsContainer (e : Entry) : Bool :=
+  e.name == "ContentSequence.from_sequence" || e.name == "MeasurementReport.from_sequence"
+
+/-- the condition numbers of an entry are in range, and there is at least one (bit 0 is reserved for `copy`) -/
+def wellFormed (e : Entry) : Bool := condsBelowList e.nCond e.prog && decide (0 < e.nCond)
+
+/-- what a converter entry has to pass: without `copy` parameter it never writes an input; with the parameter it leaves the
+original alone for `copy=True` and returns the very object for `copy=False` — **unless and only unless** it is one of the
+container-rebuilding converters -/
+def converterOk (e : Entry) : Bool :=
+  wellFormed e &&
+    (bif e.hasCopy then decide (0 < e.nIn) && copyLeavesOriginal e && (rebuildsContainer e == !nocopyReturnsSame e)
+     else neverWritesInputs e)
+
+/-- what a constructor entry has to pass -/
+def constructorOk (e : Entry) : Bool := wellFormed e && neverWritesInputs e
 
 end HdVerif.Aliasing
